@@ -138,8 +138,12 @@ where
         if let Some(ref this) = ctx.this {
             Ok(This(T::from_value(this)?))
         } else {
-            let arg = arg_value_from_context(ctx)
-                .map_err(|_| ExecutionError::missing_argument_or_target())?;
+            let arg = arg_value_from_context(ctx).map_err(|e| match e {
+                ExecutionError::InvalidArgumentCount { .. } => {
+                    ExecutionError::missing_argument_or_target()
+                }
+                e => e,
+            })?;
             Ok(This(T::from_value(&arg)?))
         }
     }
